@@ -88,6 +88,13 @@ func genRec(t *rapid.T) rec {
 	}
 }
 
+type panicky struct{ why string }
+
+func (p panicky) MarshalText() ([]byte, error) { panic("value: MarshalText " + p.why) }
+func (p panicky) MarshalJSON() ([]byte, error) { panic("value: MarshalJSON " + p.why) }
+func (p panicky) String() string               { panic("value: String " + p.why) }
+func (p panicky) Error() string                { panic("value: Error " + p.why) }
+
 func TestTreeHistories(t *testing.T) {
 	rt.Check(t, 2500, 600000, func(t *rapid.T) {
 		st := setup{kind: rapid.IntRange(0, 2).Draw(t, "handler"), colorful: rapid.IntRange(0, 3).Draw(t, "colorful") == 0, addSource: rapid.IntRange(0, 3).Draw(t, "addSource") == 0}
@@ -95,6 +102,7 @@ func TestTreeHistories(t *testing.T) {
 		nodes := []*tnode{{l: st.fresh(sink), parent: -1}}
 		var hist []string
 		nontrivial := false
+		failed := 0
 		pick := func(t *rapid.T, label string) int {
 			// prefer nodes that carry attributes and already have children: that is where aliasing would bite
 			var pref []int
@@ -171,6 +179,28 @@ func TestTreeHistories(t *testing.T) {
 			"log": func(t *rapid.T) {
 				doLog(t, pick(t, "node"), genRec(t))
 			},
+			"failedWith": func(t *rapid.T) {
+				// a derivation (or a record) that does not come about: a value panics while it is rendered - a typed nil whose
+				// Error() dereferences it, a buggy Marshaler - and the caller recovers. No logger results from it, and the
+				// loggers that exist write what they would have written without the attempt.
+				n := nodes[pick(t, "node")]
+				bad := slog.Any("user", panicky{"in a derivation"})
+				if rapid.Bool().Draw(t, "insideAGroup") {
+					bad = slog.Group("req", slog.String("ok", "1"), slog.Group("at", bad))
+				}
+				asRecord := rapid.IntRange(0, 2).Draw(t, "asARecordInstead") == 0
+				func() {
+					defer func() { _ = recover() }()
+					sink.Reset()
+					if asRecord {
+						n.l.Info("a record that may not come about", slog.String("first", "x"), bad)
+					} else {
+						_ = n.l.With(slog.String("first", "x"), bad)
+					}
+				}()
+				failed++
+				hist = append(hist, fmt.Sprintf("recover(n.With/Info(... %v)) asRecord=%v", bad.Key, asRecord))
+			},
 		})
 		// every node logs once more at the end, oldest first
 		final := rec{level: logger.LevelInfo, msg: "final", attrs: []lm.Node{{Key: "k", Kind: lm.KInt64, I: 7}}, form: 2}
@@ -178,6 +208,9 @@ func TestTreeHistories(t *testing.T) {
 			doLog(t, i, final)
 		}
 		ev.Label("handler:" + lm.HandlerNames[st.kind])
+		if failed > 0 {
+			ev.Label("history_with_a_derivation_or_record_whose_value_panics")
+		}
 		ev.Case(nontrivial, ev.Hash(append([]string{st.String()}, hist...)...), func() string { return st.String() + ": " + strings.Join(hist, "; ") })
 	})
 }
